@@ -9,6 +9,8 @@ real ingress converter + tracker):
 
 * `notify`      = `signer.Notify`/`verify`/`match`
 * `cycle`       = what one reconciliation does to the acme storages and the queue
+* `icycle`      = the controller cycle around it: `AcmeUpdate` ; `HAProxyUpdate` whose reload may fail
+                  (`failedSince`, `reloadOwed`) and which commits the storages in every case
 * `convCycle`   = which storages the ingress converter removes/re-acquires per sync
 
 Three defects found by this check were repaired in /repo; the models follow the repaired code and
@@ -468,6 +470,182 @@ theorem inplace_change_not_enqueued_old :
     (cycle (cycle {} c1).1 c2).2 = [.add "s1" ⟨"", ["r1.x", "r2.x"]⟩, .remove "s1" ⟨"", ["r1.x"]⟩] := by
   decide +kernel
 
+/-! ### the controller cycle: `AcmeUpdate`, then `HAProxyUpdate` whose reload may fail
+
+`Inst` carries what the instance remembers between reconciliations next to the storages:
+`failing` (`failedSince != nil`), `owed` (`reloadOwed`), `committed`. An `ICycle` adds to a storages
+cycle whether the sync needs a reload (`chg`) and whether a reload attempted in it fails (`rfail`).
+`HAProxyUpdate` commits the storages in every case (deferred `Commit`). The statements below hold
+for every initial instance state (so: whatever the reload outcomes BEFORE the cycle) and for every
+`chg`/`rfail` (whatever the outcome IN the cycle). -/
+
+/-- the deferred `Commit`: after a controller cycle nothing is pending in the storages, whatever
+the reload did and whatever `AcmeUpdate` handed to the queue -/
+theorem storages_committed_any_reload_outcome (p : AddPolicy) (i : Inst) (c : ICycle) :
+    (icycleP p i c).1.st.add = [] ∧ (icycleP p i c).1.st.del = [] ∧ (icycleP p i c).1.st.cleared = false := by
+  rw [icycleP_st]; exact ⟨rfl, rfl, rfl⟩
+
+/-- `failedSince` / `reloadOwed` follow the last attempted reload (`updateSuccessful`) … -/
+theorem failing_tracks_last_reload (p : AddPolicy) (i : Inst) (c : ICycle) :
+    (icycleP p i c).1.failing = (match reloadOf i c with | .none => i.failing | .ok => false | .failed => true) := by
+  rw [(icycleP_flags p i c).1]; cases reloadOf i c <;> rfl
+
+/-- … and a reload that is owed is attempted again by the next cycle, changed or not -/
+theorem owed_reload_is_retried (i : Inst) (c : ICycle) (h : i.owed = true) : reloadOf i c ≠ .none := by
+  unfold reloadOf; simp only [h, Bool.or_true, if_true]; split <;> simp
+
+/-- **queue_follows_cycle_any_reload_outcome**: `queue_follows_cycle` for the controller cycle. On the
+leader with an account the queue gets an `Add` for exactly the storages that are new or whose domain set /
+preferred chain changed in this cycle (every storage on a full sync) and a `Remove` for exactly the former
+items that are gone or changed — for every `i.failing`, `i.owed`, `i.committed`, `c.chg`, `c.rfail`. -/
+theorem queue_follows_cycle_any_reload_outcome (i : Inst) (c : ICycle) (hadd : i.st.add = []) (hdel : i.st.del = [])
+    (hcl : i.st.cleared = false) (hu : Uniq i.st.items) (hl : c.c.leader = true) (ha : c.c.acct = true) :
+    (∀ n x, QOp.add n x ∈ (icycle i c).2.1 ↔
+        find (icycle i c).1.st.items n = some x ∧ (c.c.full = true ∨ find i.st.items n ≠ some x)) ∧
+    (∀ n x, QOp.remove n x ∈ (icycle i c).2.1 ↔
+        find i.st.items n = some x ∧ find (icycle i c).1.st.items n ≠ some x) := by
+  rw [icycle_ops, icycle_st]
+  exact queue_follows_cycle i.st c.c hadd hdel hcl hu hl ha
+
+/-- the clause the seeded defect breaks, spelled out: a storage that appears, or whose domain set or
+preferred chain changes, in a cycle is handed to `queue.Add` in that very cycle, also while HAProxy is
+failing to reload (`i.failing = true`) and also when the reload of this cycle fails -/
+theorem appeared_or_changed_enqueued_any_reload_outcome (i : Inst) (c : ICycle) (hadd : i.st.add = [])
+    (hdel : i.st.del = []) (hcl : i.st.cleared = false) (hu : Uniq i.st.items)
+    (hl : c.c.leader = true) (ha : c.c.acct = true) (n : String) (x : Cert)
+    (hnew : find (icycle i c).1.st.items n = some x) (hold : find i.st.items n ≠ some x) :
+    QOp.add n x ∈ (icycle i c).2.1 :=
+  ((queue_follows_cycle_any_reload_outcome i c hadd hdel hcl hu hl ha).1 n x).mpr ⟨hnew, Or.inr hold⟩
+
+/-- incremental syncs do not re-enqueue (nor remove) an unchanged storage, whatever the reloads do -/
+theorem unchanged_not_reenqueued_any_reload_outcome (i : Inst) (c : ICycle)
+    (hadd : i.st.add = []) (hdel : i.st.del = []) (hcl : i.st.cleared = false) (hu : Uniq i.st.items)
+    (hp : c.c.full = false) (hl : c.c.leader = true) (ha : c.c.acct = true) (n : String) (x : Cert)
+    (h0 : find i.st.items n = some x) (h1 : find (icycle i c).1.st.items n = some x) :
+    QOp.add n x ∉ (icycle i c).2.1 ∧ QOp.remove n x ∉ (icycle i c).2.1 := by
+  rw [icycle_ops]; rw [icycle_st] at h1
+  exact unchanged_not_reenqueued i.st c.c hadd hdel hcl hu hp hl ha n x h0 h1
+
+/-- non-leaders, and leaders without an account, enqueue nothing, whatever the reloads do -/
+theorem not_leader_or_account_any_reload_outcome (p : AddPolicy) (i : Inst) (c : ICycle)
+    (h : ¬ (c.c.leader = true ∧ c.c.acct = true)) : (icycleP p i c).2.1 = [] := by
+  have h0 : (acmeUpdate c.c.leader c.c.acct (preUpdate i.st c.c)).2 = [] := not_leader_or_account i.st c.c h
+  cases p
+  · exact h0
+  · simp only [icycleP, acmeUpdateP]
+    split
+    · simp only [h0, List.filter_nil]
+    · exact h0
+
+/-- what one controller cycle must show: the queue operations the storages before/after demand
+(`SpecCycle`, in which no reload outcome occurs), the reload outcome, and `failedSince` after it -/
+def FollowsI : Inst → List ICycle → List (List QOp × Reload × Bool) → Prop
+  | _, [], os => os = []
+  | _, _ :: _, [] => False
+  | i, c :: cs, o :: os =>
+    SpecCycle i.st.items (icycle i c).1.st.items c.c o.1 ∧ o.2.1 = reloadOf i c ∧
+    o.2.2 = (icycle i c).1.failing ∧ FollowsI (icycle i c).1 cs os
+
+/-- **queue_follows_any_reload_outcome**, full strength, over ALL histories of controller cycles —
+partial and full syncs, leader or not, with or without account, whatever the converter removes and
+acquires, with ARBITRARY reload-failure flags in every cycle — from ANY instance state with committed
+storages (`failing`, `owed`, `committed` arbitrary): on the leader with an account every cycle enqueues
+exactly the storages that appeared or changed in it (all of them on a full sync) and removes exactly
+the items that disappeared or changed; otherwise nothing is enqueued. -/
+theorem queue_follows_any_reload_outcome (cs : List ICycle) :
+    ∀ (i : Inst), i.st.add = [] → i.st.del = [] → i.st.cleared = false → Uniq i.st.items →
+      FollowsI i cs (runI .always i cs).2 := by
+  induction cs with
+  | nil => intro i _ _ _ _; rfl
+  | cons c cs ih =>
+    intro i hadd hdel hcl hu
+    simp only [runI, FollowsI]
+    have hc := storages_committed_any_reload_outcome .always i c
+    have hu' : Uniq (icycle i c).1.st.items := by rw [icycle_st]; exact cycle_uniq_items i.st c.c hu
+    refine ⟨?_, rfl, trivial, ih _ hc.1 hc.2.1 hc.2.2 hu'⟩
+    unfold SpecCycle
+    by_cases hla : c.c.leader = true ∧ c.c.acct = true
+    · simp only [hla, and_self, if_true]
+      exact queue_follows_cycle_any_reload_outcome i c hadd hdel hcl hu hla.1 hla.2
+    · simp only [hla, if_false]
+      exact not_leader_or_account_any_reload_outcome .always i c hla
+
+/-- two histories that differ only in the reload outcomes (`chg`, `rfail`, and the `failing`/`owed`/
+`committed` flags they start from) hand the same items to the queue, cycle by cycle, and end with the
+same storages -/
+theorem enqueued_independent_of_reload_outcomes (cs cs' : List ICycle) (i i' : Inst)
+    (hc : cs.map (·.c) = cs'.map (·.c)) (hs : i.st = i'.st) :
+    (runI .always i cs).2.map (·.1) = (runI .always i' cs').2.map (·.1) ∧
+    (runI .always i cs).1.st = (runI .always i' cs').1.st := by
+  have h := runI_always_proj cs i
+  have h' := runI_always_proj cs' i'
+  rw [h.1, h.2, h'.1, h'.2, hc, hs]; exact ⟨rfl, rfl⟩
+
+/-- the `skipWhileFailing` variant is indistinguishable from the code that exists as long as no reload
+fails (why nothing but a fault-injecting history tells them apart) -/
+theorem skip_variant_same_while_no_reload_fails (cs : List ICycle) :
+    ∀ (i : Inst), i.failing = false → (∀ c ∈ cs, c.rfail = false) →
+      runI .skipWhileFailing i cs = runI .always i cs := by
+  induction cs with
+  | nil => intro i _ _; rfl
+  | cons c cs ih =>
+    intro i hf hr
+    simp only [runI]
+    rw [icycleP_skip_not_failing i c hf]
+    have hnf : (icycleP .always i c).1.failing = false := by
+      rw [(icycleP_flags .always i c).1, hf]
+      have := reloadOf_not_failed i c (hr c List.mem_cons_self)
+      cases hrl : reloadOf i c <;> simp_all [afterReload]
+    rw [ih _ hnf (fun c' hc' => hr c' (List.mem_cons_of_mem _ hc'))]
+
+/-- the history of the seeded defect: the first reload fails; in the next cycle `s1` appears and the
+reload succeeds; then an idle cycle -/
+def hFail : List ICycle :=
+  [⟨⟨true, true, true, [], []⟩, false, true⟩,
+   ⟨⟨false, true, true, [], [⟨"s1", "", ["h1.x"]⟩]⟩, false, false⟩]
+
+def hIdle : ICycle := ⟨⟨false, true, true, [], []⟩, false, false⟩
+
+/-- **witness (seeded variant)**: an `AcmeUpdate` that skips the additions while `failedSince` is set
+LOSES them — `AcmeUpdate` runs before `HAProxyUpdate`, still sees `failing` from the previous cycle,
+and the deferred `Commit` empties `itemsAdd`: `s1` is in the storages, `add` is empty, no later cycle
+enqueues it, and the Spec rejects the output. The code that exists enqueues `s1` in cycle 2 and is
+accepted. -/
+theorem skip_while_failing_loses_addition :
+    (runI .skipWhileFailing {} hFail).2 = [([], .failed, true), ([], .ok, false)] ∧
+    find (runI .skipWhileFailing {} hFail).1.st.items "s1" = some ⟨"", ["h1.x"]⟩ ∧
+    (runI .skipWhileFailing {} hFail).1.st.add = [] ∧
+    (runI .skipWhileFailing {} (hFail ++ [hIdle, hIdle])).2.map (·.1) = [[], [], [], []] ∧
+    oracleICycles {} hFail ((runI .skipWhileFailing {} hFail).2.map (·.1)) = some "changed-storage-not-enqueued" ∧
+    (runI .always {} hFail).2 = [([], .failed, true), ([.add "s1" ⟨"", ["h1.x"]⟩], .ok, false)] ∧
+    oracleICycles {} hFail ((runI .always {} hFail).2.map (·.1)) = none := by decide +kernel
+
+/-- non-vacuity of `queue_follows_any_reload_outcome`: a history in which the first reload fails, a
+storage appears while failing and the retried reload fails again (`s` then changes while still failing),
+a cycle without any reload, a non-leader cycle, and a full sync whose reload fails: the additions and
+removals are those of the storages, next to every reload outcome -/
+example :
+    let h : List ICycle :=
+      [⟨⟨true, true, true, [], []⟩, false, true⟩,
+       ⟨⟨false, true, true, [], [⟨"s1", "", ["h1.x"]⟩]⟩, false, true⟩,
+       ⟨⟨false, true, true, ["s1"], [⟨"s1", "", ["h1.x", "h2.x"]⟩, ⟨"s2", "X1", ["h3.x"]⟩]⟩, true, false⟩,
+       ⟨⟨false, true, true, [], []⟩, false, true⟩,
+       ⟨⟨false, false, true, ["s2"], []⟩, true, true⟩,
+       ⟨⟨true, true, true, [], [⟨"s1", "", ["h1.x", "h2.x"]⟩]⟩, false, true⟩]
+    (runI .always {} h).2 =
+      [([], .failed, true),
+       ([.add "s1" ⟨"", ["h1.x"]⟩], .failed, true),
+       ([.add "s2" ⟨"X1", ["h3.x"]⟩, .add "s1" ⟨"", ["h1.x", "h2.x"]⟩, .remove "s1" ⟨"", ["h1.x"]⟩], .ok, false),
+       ([], .none, false),
+       ([], .failed, true),
+       ([.add "s1" ⟨"", ["h1.x", "h2.x"]⟩], .failed, true)] ∧
+    oracleICycles {} h ((runI .always {} h).2.map (·.1)) = none := by decide +kernel
+
+/-- non-vacuity of the oracle over controller cycles: it rejects a cycle-2 output without `s1` -/
+example : oracleICycles {} hFail [[], []] = some "changed-storage-not-enqueued" ∧
+    oracleICycles {} hFail [[], [.add "s1" ⟨"", ["h1.x"]⟩]] = none ∧
+    oracleICycles {} hFail [[.add "s1" ⟨"", ["h1.x"]⟩], []] = some "stale-item-enqueued" := by decide +kernel
+
 /-! ## (c) the ingress converter feeding the storages -/
 
 theorem acmeUpdate_items (l a : Bool) (s : Storages) : (acmeUpdate l a s).1.items = s.items := by
@@ -657,8 +835,11 @@ example : oracleConv [] [⟨true, true, true, wA⟩, ⟨true, true, true, wB⟩,
 
 /-- the decision, the strict `Before`, the due date, the write guard, `VerifyHostname` per domain,
 `DeepEqual` and the `cleared` guard in shrink, the snapshot in `Acquire`, `Clear()` carrying the
-storages over, the leader/account guards of `AcmeUpdate`, the host requirement of an acme TLS block,
-and what `trackAddedIngress` pre-tracks -/
+storages over, the order Sync / `AcmeUpdate` / `HAProxyUpdate` of a reconciliation, the leader/account
+guards of `AcmeUpdate` and the instance fields it touches (no
+`failedSince`/`reloadOwed`/`up`), the deferred `Commit` at the head of `HAProxyUpdate`, the retry of an
+owed reload, `updateSuccessful`, the bookkeeping of `Reload`, the committed-data test of the dynamic
+updater, the host requirement of an acme TLS block, and what `trackAddedIngress` pre-tracks -/
 theorem facts_c17 :
     Facts.c17VerifyConds = ["errSecret != nil || tls.Crt.NotAfter.Before(duedate) || !match(domains, tls.Crt)", "errSecret != nil", "tls.Crt.NotAfter.Before(duedate)", "crt != nil && key != nil", "err != nil", "errTLS == nil"] ∧
     Facts.c17VerifyDue = ["duedate := time.Now().Add(s.expiring)"] ∧
@@ -669,11 +850,18 @@ theorem facts_c17 :
     Facts.c17RemoveAllBody = ["for _, name := range names {\n\tif item, found := c.items[name]; found {\n\t\tc.itemsDel[name] = item\n\t\tdelete(c.items, name)\n\t}\n}"] ∧
     Facts.c17StoragesClearBody = ["for name, item := range c.items {\n\tc.itemsDel[name] = item\n}", "c.items = map[string]*AcmeCerts{}", "c.itemsAdd = map[string]*AcmeCerts{}", "c.cleared = true"] ∧
     Facts.c17CommitBody = ["c.itemsAdd = map[string]*AcmeCerts{}", "c.itemsDel = map[string]*AcmeCerts{}", "c.cleared = false"] ∧
-    Facts.c17ClearBody = ["config := createConfig(c.options)", "config.backends = c.backends", "config.backends.Clear()", "config.acmeData = c.acmeData.ClearStorages()", "*c = *config"] ∧
+    Facts.c17ClearBody = ["config := createConfig(c.options)", "config.backends = c.backends", "config.backends.Clear()", "config.acmeData = c.acmeData.ClearStorages()", "config.globalPrev = c.globalOld", "if config.globalPrev == nil {\n\tconfig.globalPrev = c.globalPrev\n}", "*c = *config"] ∧
     Facts.c17AcmeUpdateConds = ["i.config == nil || i.options.AcmeQueue == nil", "le.IsLeader()", "!hasAccount", "storages.Updated()"] ∧
     Facts.c17AcmeUpdateCalls = [".Storages", "i.config.AcmeData", "le.IsLeader", "i.acmeEnsureConfig", "i.config.AcmeData", "storages.BuildAcmeStoragesAdd", "i.acmeAddStorage", "storages.BuildAcmeStoragesDel", "i.acmeRemoveStorage", "storages.Updated", "i.logger.InfoV", "le.LeaderName"] ∧
+    Facts.c17ReconcileOrder = [".Sync", "s.instance.Config", "s.svcleader.isLeader", "s.instance.AcmeUpdate", "s.instance.HAProxyUpdate"] ∧
+    Facts.c17AcmeUpdateFields = ["i.acmeAddStorage", "i.acmeEnsureConfig", "i.acmeRemoveStorage", "i.config", "i.logger", "i.options"] ∧
+    Facts.c17HAProxyUpdateHead = ["if i.config == nil {\n\treturn nil\n}", "defer i.config.Commit()"] ∧
+    Facts.c17HAProxyUpdateOwedConds = ["updated && i.reloadOwed"] ∧
+    Facts.c17UpdateSuccessfulBody = ["if success {\n\ti.failedSince = nil\n} else if i.failedSince == nil {\n\tnow := time.Now()\n\ti.failedSince = &now\n}", "i.metrics.UpdateSuccessful(success)"] ∧
+    Facts.c17ReloadMarks = ["i.reloadOwed = true", "i.updateSuccessful(false)", "i.reloadOwed = false", "i.up = true", "i.updateSuccessful(true)"] ∧
+    Facts.c17DynUpdateFirst = ["updated := d.config.hasCommittedData() && d.checkConfigChange()"] ∧
     Facts.c17AcmeTLSConds = ["tls.SecretName != \"\"", "tls.SecretName != \"\" && len(tls.Hosts) > 0", "tls.SecretName != \"\""] ∧
     Facts.c17PreTrackContexts = ["convtypes.ResourceHABackend", "ctx", "ctx", "ctx", "ctx", "convtypes.ResourceHABackend"] :=
-  ⟨rfl, rfl, rfl, rfl, rfl, rfl, rfl, rfl, rfl, rfl, rfl, rfl, rfl, rfl⟩
+  ⟨rfl, rfl, rfl, rfl, rfl, rfl, rfl, rfl, rfl, rfl, rfl, rfl, rfl, rfl, rfl, rfl, rfl, rfl, rfl, rfl, rfl⟩
 
 end HapVerif.C17
